@@ -30,10 +30,19 @@ def worker(args, timeout):
 
 
 def scenarios_for(model, tier):
+    """-> list of (name, worker-args)"""
     if model == "events_once":
         from mirproto import events_once_model as EO
         progs = EO.RECEIVER_PROGRAMS_QUICK if tier == "quick" else EO.RECEIVER_PROGRAMS_THOROUGH
-        return [(s, r) for s in EO.SENDER_OPS for r in progs]
+        return [("S:%s|R:%s" % (s, ",".join(r)), ["--sender", s, "--recv", ",".join(r)]) for s in EO.SENDER_OPS for r in progs]
+    if model == "events":
+        from mirproto import events_model as EV
+        out = []
+        for flavor in ("auto", "manual"):
+            progs = getattr(EV, "%s_%s" % (flavor.upper(), "QUICK" if tier == "quick" else "THOROUGH"))
+            for p in progs:
+                out.append(("%s: %s" % (flavor, EV.prog_name(p)), ["--model", "events_" + flavor, "--programs", json.dumps(p)]))
+        return out
     raise ValueError(model)
 
 
@@ -48,53 +57,81 @@ def run_property(prop, spec, tier, seed, only=None, jobs=10):
         res["noverdict"].append(("mir-dump", str(e)[-600:]))
         return res
     res["functions"].append("MIR of %s regenerated from the working tree in %.1fs (%s)" % (spec["package"], time.time() - t0, mir_path))
-    # wrapper fingerprints
-    fp = worker(["fingerprint", "--mir", mir_path], 300)
+    extra = []
+    fp = {}
+    if model == "events":
+        try:
+            mir2 = M.dump("awaiter_set")
+        except Exception as e:  # noqa: BLE001
+            res["noverdict"].append(("mir-dump", str(e)[-600:]))
+            return res
+        extra = ["--mir2", mir2]
+        for flavor in ("auto", "manual"):
+            d = worker(["fingerprint", "--mir", mir_path, "--model", "events_" + flavor], 300)
+            if d.get("verdict") in ("error", "timeout"):
+                res["noverdict"].append(("fingerprint", str(d)[:600]))
+                return res
+            fp.update({"%s/%s" % (flavor, k): v for k, v in d.items()})
+        d = worker(["fingerprint", "--mir", mir2, "--model", "awaiter_set"], 300)
+        if d.get("verdict") in ("error", "timeout"):
+            res["noverdict"].append(("fingerprint", str(d)[:600]))
+            return res
+        fp.update({"awaiter_set/%s" % k: v for k, v in d.items()})
+    else:
+        fp = worker(["fingerprint", "--mir", mir_path], 300)
+        if fp.get("verdict") in ("error", "timeout"):
+            res["noverdict"].append(("fingerprint", str(fp)[:600]))
+            return res
     try:
         expected = json.load(open(FINGERPRINTS)).get(model, {})
     except (OSError, ValueError):
         expected = {}
-    if fp.get("verdict") in ("error", "timeout") or not isinstance(fp, dict):
-        res["noverdict"].append(("fingerprint", str(fp)[:600]))
-        return res
-    changed = [k for k, v in expected.items() if fp.get(k) != v]
+    if os.environ.get("FOLO_VERIF_PIN_FINGERPRINTS") == model:
+        allfp = {}
+        try:
+            allfp = json.load(open(FINGERPRINTS))
+        except (OSError, ValueError):
+            pass
+        allfp[model] = fp
+        json.dump(allfp, open(FINGERPRINTS, "w"), indent=1, sort_keys=True)
+        expected = fp
+    changed = sorted(set(k for k, v in expected.items() if fp.get(k) != v) | set(k for k in fp if k not in expected))
     if changed or not expected:
-        res["noverdict"].append(("wrapper-model", "endpoint wrapper(s) %s changed since the hand-written wrapper model was pinned "
+        res["noverdict"].append(("hand-model", "code that is modelled by hand (endpoint wrappers / awaiter-set contract) changed since the model was pinned: %s "
                                  "(lib/mirproto/fingerprints.json): the model must be re-derived before a verdict is possible" % (changed or "<none pinned>")))
         return res
     scs = scenarios_for(model, tier)
     if only:
-        scs = [x for x in scs if only in ("S:%s|R:%s" % (x[0], ",".join(x[1])))]
+        scs = [x for x in scs if only in x[0]]
     import random
     random.Random(seed).shuffle(scs)
     results = [None] * len(scs)
     sem = threading.Semaphore(jobs)
     per_timeout = spec.get("timeout_quick", 900) if tier == "quick" else spec.get("timeout_thorough", 3600)
 
-    def go(i, s, r):
+    def go(i, name, wargs):
         with sem:
-            a = ["scenario", "--mir", mir_path, "--prop", prop, "--sender", s, "--recv", ",".join(r), "--timeout", str(per_timeout),
-                 "--kcap", str(spec.get("kcap_quick", 64) if tier == "quick" else spec.get("kcap_thorough", 96))]
-            results[i] = worker(a, per_timeout * 2 + 120)
+            a = ["scenario", "--mir", mir_path, "--prop", prop, "--timeout", str(per_timeout),
+                 "--kcap", str(spec.get("kcap_quick", 64) if tier == "quick" else spec.get("kcap_thorough", 96))] + extra + wargs
+            results[i] = worker(a, per_timeout * 3 + 120)
             d = results[i]
-            print("[mirproto] %-44s %-10s k=%-3s %s" % ("S:%s|R:%s" % (s, ",".join(r)), d.get("verdict"), d.get("k"),
+            print("[mirproto] %-58s %-10s k=%-3s %s" % (name, d.get("verdict"), d.get("k"),
                                                        "; ".join("%s %ss" % (q["result"], q["s"]) for q in d.get("queries", []))), flush=True)
     ths = []
-    for i, (s, r) in enumerate(scs):
-        th = threading.Thread(target=go, args=(i, s, r))
+    for i, (name, wargs) in enumerate(scs):
+        th = threading.Thread(target=go, args=(i, name, wargs))
         th.start()
         ths.append(th)
     for th in ths:
         th.join()
     fnset = set()
-    for (s, r), d in zip(scs, results):
-        name = "S:%s|R:%s" % (s, ",".join(r))
+    for (name, wargs), d in zip(scs, results):
         v = d.get("verdict")
         sample = dict(engine="mirproto", scenario=name, verdict=v, k_steps=d.get("k"), k_longest_path=d.get("k_longest_path"),
                       automaton_nodes=d.get("nodes"), smt_assertions=d.get("assertions"), queries=d.get("queries"),
                       detail=d.get("detail") or d.get("labels"))
         res["samples"].append(sample)
-        res["bounds"].append("%s: all interleavings of the two endpoint programs, <= %s visible steps" % (name, d.get("k")))
+        res["bounds"].append("%s: all interleavings of the thread programs, <= %s visible steps" % (name, d.get("k")))
         res["totals"]["queries"] += len(d.get("queries", []))
         res["totals"]["solver_s"] += sum(q["s"] for q in d.get("queries", []))
         res["totals"]["obligations"] += 1
@@ -105,11 +142,12 @@ def run_property(prop, spec, tier, seed, only=None, jobs=10):
         if v == "holds":
             continue
         if v == "violation":
-            rp = os.path.join(VERIF, "replay", prop, name.replace("|", "_").replace(":", "").replace(",", "-") + ".mirproto.json")
+            import re as _re
+            rp = os.path.join(VERIF, "replay", prop, _re.sub(r"[^A-Za-z0-9_.-]+", "_", name) + ".mirproto.json")
             os.makedirs(os.path.dirname(rp), exist_ok=True)
             with open(rp, "w") as f:
                 f.write("# mirproto\n")
-                json.dump(dict(prop=prop, model=model, sender=s, recv=r, labels=d["labels"], trace=d["trace"], final=d["final"], k=d["k"]), f, indent=1)
+                json.dump(dict(prop=prop, model=model, name=name, worker_args=wargs, labels=d["labels"], trace=d["trace"], final=d["final"], k=d["k"]), f, indent=1)
             where = first_blame(d)
             for lab in d["labels"]:
                 res["violations"].append((name, "%s [%s]" % (lab, where), rp))
@@ -134,7 +172,8 @@ def replay_file(prop, spec, path):
         f.readline()
         rec = json.load(f)
     mir_path = M.dump(spec["package"])
-    d = worker(["scenario", "--mir", mir_path, "--prop", rec["prop"], "--sender", rec["sender"], "--recv", ",".join(rec["recv"]), "--timeout", "900", "--kcap", "96"], 2400)
+    extra = ["--mir2", M.dump("awaiter_set")] if rec["model"] == "events" else []
+    d = worker(["scenario", "--mir", mir_path, "--prop", rec["prop"], "--timeout", "900", "--kcap", "96"] + extra + rec["worker_args"], 2400)
     print("replay of %s on the current tree: %s %s" % (path, d.get("verdict"), d.get("labels") or d.get("detail") or ""))
     if d.get("verdict") == "violation":
         for st in d["trace"]:
